@@ -5,7 +5,7 @@ import re
 from acverif.mir import short, tstr, subterms, affine_str
 from acverif.rl import (is_call, peel, peel_all, is_var, is_agg, is_const, bool_gates, try_gates, result_gates, discr_gates, reachable_without, cmp_gates,
                         param_of_type, param_at, var_of_type, user_locals_of_type,
-                        must_pass, line_of, expand_vars, cmp_norm, atom, rewrite, reaching_defs, var_defs_terms, eq_cond)
+                        must_pass, line_of, expand_vars, cmp_norm, atom, rewrite, reaching_defs, var_defs_terms, eq_cond, value_roots, unwrapped, enum_gates, arm_edges, other_edges)
 
 FIND = 'automaton::try_find_fwd'
 FIND_IMP = 'automaton::try_find_fwd_imp'
@@ -1057,8 +1057,25 @@ def r03_1(cx):
         okx = clears_nmi and clears_mat
     cx.report('R03.1', b, 'exhaustion', okx, 'when a state\'s list is exhausted: at += 1, next_match_index = None, mat = None, then the walk continues' if okx else 'list exhaustion does not advance/clear the stepping state as specified')
     # state.id stores: Some(sid) at loop exit and on special states
-    ids = [(sb, val) for sb, ssi, tt, val, s in b.field_stores() if tt == ('f', st, 'id')]
-    okid = len(ids) >= 3 and all(is_agg(v, r'Option$', 'Some') and is_var(v[3]['0'], 'sid') for _, v in ids)
+    ids3 = [(sb, ssi, val) for sb, ssi, tt, val, s in b.field_stores() if tt == ('f', st, 'id')]
+    ids = [(sb, val) for sb, ssi, val in ids3]
+    def state_value(x, sb, ssi):
+        """the value saved is a state id the walk is (or starts) in: the start state, a next_state result, or the id resumed"""
+        roots = value_roots(b, x, sb, ssi) if is_var(x) else [x]
+        if not roots:
+            return False
+        for r0 in roots:
+            r0 = peel_all(r0)
+            if r0[0] in ('try',):
+                r0 = peel_all(r0[1])
+            while r0[0] == 'f' and r0[1][0] == 'dc' and r0[1][2] in ('Ok', 'Some', 'Continue'):
+                r0 = peel_all(r0[1][1])
+                if is_call(r0, r'Try::branch$'):
+                    r0 = peel_all(r0[2][0])
+            if not (is_call(r0, r'Automaton::(start_state|next_state)$') or r0 == ('f', st, 'id')):
+                return False
+        return True
+    okid = len(ids) >= 3 and all((is_agg(v, r'Option$', 'Some') and is_var(peel_all(v[3]['0'])) and b.locals[peel_all(v[3]['0'])[2]]['ty'].endswith('StateID') and state_value(peel_all(v[3]['0']), sb, ssi)) for sb, ssi, v in ids3)
     exit_ids = [sb for sb, v in ids if sb not in d.loop and sb in b.reach(d.header)]
     # after a transition, no return may happen before the new state was saved (a later call resumes from state.id)
     rets_ok = [bi for bi, si, pl, st0 in b.stores() if si != 'term' and pl['l'] == 0 and not pl['pr'] and is_agg(b.rvalue_term(st0['r'], 0, bi), r'Result$', 'Ok')]
